@@ -290,7 +290,7 @@ func runJ2K(c *eng.Ctx, sub string, jobs []j2kCase, reg func(j2kCase) *eng.Fail,
 }
 
 func c04(c *eng.Ctx) {
-	c.Rule("E1: three crossed full products. G (geometry): (w,h) x levels 0..6 x code-block shape x precinct x progression 0..4 x layers x components x MCT at P=8; V (values): every image of <= 4 samples over {MIN,-1/0,1,MAX} x P 1..16 x signed x components 1..4 x MCT x levels 0..2; N (byte coincidences): noise images at sizes around code-block multiples x levels x code-block x layers. distinct = distinct codestreams")
+	c.Rule("E1: three crossed full products. G (geometry): (w,h) x levels 0..6 x code-block shape x precinct x progression 0..4 x layers x components x MCT at P=8; V (values): every image of <= 4 samples over {MIN,-1/0,1,MAX} x P 1..16 x signed x components 1..4 x MCT x levels 0..2; N (byte coincidences): noise images at sizes around code-block multiples x levels x code-block x layers; PG (precinct grids): sizes around precinct multiples x levels x code-block x precinct x progression x layers. distinct = distinct codestreams")
 	c.Assume("samples are P-bit values in the low bits of the container, signed = P-bit two's complement (property's convention)")
 	// ---- V ----
 	var jobs []j2kCase
@@ -413,6 +413,36 @@ func c04(c *eng.Ctx) {
 		}
 	}
 	runJ2K(c, "C04.roundtrip", jobs, j2kFn, "N-noise", fmt.Sprintf("sizes %v x %d noise images x levels {0,3,5} x code-block {4,16,32,64} x layers {1,3} x P {8,12,16}", sizes, nk), false)
+	// ---- PG: precinct grids ----
+	// sizes at which a resolution level spans several precincts, one sample before / at / after a precinct or code-block multiple
+	jobs = nil
+	pgs := []int{33, 64, 65, 66, 97, 129, 130}
+	pgcb := [][2]int{{16, 16}, {32, 32}, {8, 16}, {64, 64}}
+	pgpr := [][2]int{{32, 32}, {64, 64}, {32, 64}, {128, 128}, {256, 256}}
+	for wi, w := range pgs {
+		for hi, h := range pgs {
+			for li, lv := range []int{1, 2, 3, 5} {
+				for ci, cb := range pgcb {
+					for pi, pr := range pgpr {
+						for prog := 0; prog <= 4; prog++ {
+							for _, ly := range []int{1, 2} {
+								rot := (wi + 2*hi + 3*li + 5*ci + 7*pi + 11*prog + 13*ly) % 4
+								if c.Quick() && rot != 0 {
+									continue
+								}
+								nc := 1
+								if (wi+hi+prog)%5 == 4 {
+									nc = 3
+								}
+								jobs = append(jobs, j2kCase{W: w, H: h, C: nc, P: 8, Levels: lv, CBW: cb[0], CBH: cb[1], PW: pr[0], PH: pr[1], Prog: prog, Layers: ly, MCT: nc == 3, K: 100 + (wi+hi+li)%8})
+							}
+						}
+					}
+				}
+			}
+		}
+	}
+	runJ2K(c, "C04.roundtrip", jobs, j2kFn, "PG-precinct-grids", fmt.Sprintf("(w,h) in %v^2 x levels {1,2,3,5} x code-block %v x precinct %v x progression 0..4 x layers {1,2}, noise contents: resolutions spanning several precincts, widths one past a precinct multiple (quick: 1/4 rotation keeping every pair of dimension values)", pgs, pgcb, pgpr), c.Thorough())
 	c.Sample(map[string]any{"W": 1, "H": 1, "C": 1, "P": 5, "Signed": true, "Levels": 0, "Pix": []int{-1}})
 	c.Sample(map[string]any{"W": 7, "H": 12, "C": 3, "P": 8, "Levels": 4, "CBW": 8, "CBH": 4, "PW": 32, "PH": 128, "Prog": 3, "Layers": 6, "MCT": true, "content": "noise"})
 }
